@@ -282,17 +282,13 @@ fn build_entry(out: &mut Vec<u8>, node: &PathTreeNode) {
         out.push(PATH_SEPARATOR);
 
         // Write name fragment: length + bytes
-        // For names longer than 255 bytes, we'd need to split into fragments.
-        // In practice TVFS names are short.
-        if name_bytes.len() <= 255 {
-            out.push(name_bytes.len() as u8);
-            out.extend_from_slice(name_bytes);
-        } else {
-            // Split into 255-byte chunks
-            for chunk in name_bytes.chunks(255) {
-                out.push(chunk.len() as u8);
-                out.extend_from_slice(chunk);
-            }
+        // A length byte of 0xFF is the node value marker, so one fragment
+        // holds at most 254 bytes; longer names are split into fragments
+        // (the parser concatenates the fragments of one entry).
+        const MAX_FRAGMENT_LEN: usize = (NODE_VALUE_MARKER - 1) as usize;
+        for chunk in name_bytes.chunks(MAX_FRAGMENT_LEN) {
+            out.push(chunk.len() as u8);
+            out.extend_from_slice(chunk);
         }
     }
 
